@@ -552,6 +552,19 @@ func (d *protoDom) call(st *sState, call *ssa.Call, name string, args []sVal) (b
 		}
 		set(pInt{pOp("eqb", x, y)})
 		return true, nil
+	case "bytes.Equal":
+		// the boolean spelling of the same comparison (a variable-time one: C08 objects when an operand is secret)
+		x, ok1 := bytesArg(0)
+		y, ok2 := bytesArg(1)
+		if !ok1 || !ok2 {
+			return fail("bytes.Equal of an unknown byte string")
+		}
+		if c, ok := eqb2(pOp("eqb", x, y), token.EQL, pC(1)); ok {
+			set(c)
+		} else {
+			set(pCond{a: pOp("eqb", x, y), b: pC(1), op: token.EQL})
+		}
+		return true, nil
 	case "math/bits.Sub32", "math/bits.Sub64", "math/bits.Sub":
 		// a borrow chain over the bytes of two strings, least significant byte first, computes "X < Y": the borrow out of
 		// the first k bytes is a term; when the chain has covered every byte the path forks on the comparison
